@@ -212,3 +212,16 @@ theorem ascii_step_inv {T : Tables} {la : LookAhead} {c c' : Ctx} {a : Acc}
           · simp only [Ctx.write, Acc.endSeg_rev, Acc.push_rev, hI.text, htake]
 
 end Gzx.DMHighLevel
+
+namespace Gzx.DMHighLevel
+
+/-- skipping the bytes a segment has consumed -/
+theorem decLoop_skip' (T : Tables) (xs suf : List Nat) (up : Bool) (off : Nat) (a : Acc) :
+    decLoop T (xs ++ suf) xs.length up off a = decLoop T suf 0 up (off + xs.length) a := by
+  induction xs generalizing off with
+  | nil => simp
+  | cons x xs ih =>
+    simp only [List.cons_append, List.length_cons, decLoop]
+    rw [ih]; congr 1; omega
+
+end Gzx.DMHighLevel
